@@ -66,7 +66,7 @@ func short(s string) string {
 
 // shortFuncName: "generator/swagen/swagen30.GenerateSpec", "(*core/pipeline.GleecePipeline).Run"
 func shortFuncName(f *types.Func) string {
-	return short(f.FullName())
+	return fnName(f.FullName())
 }
 
 func isGleecePkg(path string) bool {
